@@ -40,7 +40,7 @@ def units(tier, seed):
     # many leaves (R5S selection only selects when there are more than five)
     for k3, eng in enumerate([("SEA", "DE"), ("DE", "CMAf"), ("LHS", "SEAX"), ("GA", "SHADE")]):
         for mx in (False, True):
-            descs.append(dict(engines=list(eng), gens=1, maximize=mx, obj=("twofunnel", "sphere_in")[k3 % 2], Mh=6, seed=s + k3, sprout={"kind": "simple", "L": 3, "far": 0.02},
+            descs.append(dict(engines=list(eng), gens=1, maximize=mx, obj=("twofunnel", "sphere_in")[k3 % 2], Mh=9, seed=s + k3, sprout={"kind": "simple", "L": 3, "far": 0.02},
                               lsc=[None, {"kind": "metaepoch", "m": 1}], look_mid_step=bool(k3 % 2)))
     us = [{"kind": "run", "descs": c} for c in chunks(descs, 12)]
     for mode, desc in lifecycle_descs(tier, seed, objs=("plateau", "twofunnel"), maximize=(False, True)):
